@@ -26,6 +26,8 @@ inductive Val where
   | bool (b : Bool)
   | bytes (bs : List Nat)
   | recd (fs : List (Int × Nat))
+  | rat (n : Int) (d : Nat)   -- exact rational n/d, d not a power of two (mean / wmean results)
+  | sqrtRat (n : Int) (d : Nat) -- sqrt(n/d) (std results); compared with a tolerance
   | inf (neg : Bool)          -- ±infinity (only as the neutral start value of fmax / fmin)
   | poison                    -- a result the exact model cannot represent (the case is discarded)
 deriving DecidableEq, Repr, Inhabited
